@@ -12,6 +12,7 @@ import (
 
 	"github.com/zmap/zcrypto/x509"
 	"github.com/zmap/zlint/v3"
+	"github.com/zmap/zlint/v3/lint"
 	"golang.org/x/crypto/ocsp"
 )
 
@@ -553,6 +554,47 @@ func init() {
 				}()
 				zlint.LintOcspResponse(r)
 			}()
+		}
+		// every configurable lint with each of its options set to each candidate value (booleans, small integers, field names
+		// and generic words for text / list options), alone, on a few objects: an option value may make the lint report a
+		// configuration error, never panic
+		{
+			cfgRuns := 0
+			corpusAll := loadCorpus()
+			for _, oc := range optionValueConfigs() {
+				cfg, err := lint.NewConfigFromString(oc.Text)
+				fr, err2 := lint.GlobalRegistry().Filter(lint.FilterOptions{IncludeNames: []string{oc.Lint}})
+				if err != nil || err2 != nil {
+					continue
+				}
+				fr.SetConfiguration(cfg)
+				check := func(what string, run func() *zlint.ResultSet) {
+					cfgRuns++
+					func() {
+						defer func() {
+							if p := recover(); p != nil {
+								out.Violate("C02|panic-escapes:configured", fmt.Sprintf("linting %s with %s under the configuration %q panicked: %v", what, oc.Lint, oc.Text, p), map[string]interface{}{"object": what, "config": oc.Text}, nil, nil)
+							}
+						}()
+						if m := panicMarkers(run()); len(m) > 0 {
+							out.Violate("C02|panicked:configured", fmt.Sprintf("under the configuration %q on %s: %s", oc.Text, what, m[0]), map[string]interface{}{"object": what, "config": oc.Text}, nil, nil)
+						}
+					}()
+				}
+				for i, cc := range corpusAll.Certs {
+					if i%97 == 0 || strings.HasPrefix(cc.File, "html_entity") || strings.HasPrefix(cc.File, "orgunit_in_ca") {
+						cc := cc
+						check("certificate "+cc.File, func() *zlint.ResultSet { return zlint.LintCertificateEx(cc.Cert, fr) })
+					}
+				}
+				for i, cc := range corpusAll.CRLs {
+					if i%5 == 0 {
+						cc := cc
+						check("CRL "+cc.File, func() *zlint.ResultSet { return zlint.LintRevocationListEx(cc.CRL, fr) })
+					}
+				}
+			}
+			out.Stats["configured_option_value_runs"] = cfgRuns
 		}
 		// the shared CRL / OCSP zoo (numeric boundaries, large lists, odd extensions) through the entry points
 		for _, cc := range crlZoo() {
